@@ -12,7 +12,7 @@
 From Coq Require Import ZArith QArith Qcanon List Lia.
 From DV Require Import Base.Field Base.LinAlg Base.QcInst Model.Enums Model.Homog Model.Grid Model.ItkSpec Model.Sampler
   Model.SamplerQc Gen.GridT Gen.SampleT Model.Resample Model.ResampleQc
-  Proofs.C05Index Proofs.C05Kernel Proofs.C05Main Proofs.C05Qc
+  Proofs.C05Index Proofs.C05Kernel Proofs.C05Main Proofs.C05Border Proofs.C05Qc
   Proofs.C05GenBS2 Proofs.C05GenBS3a Proofs.C05GenBS3n Proofs.C05GenModA Proofs.C05GenModN.
 Import ListNotations.
 
@@ -80,6 +80,33 @@ Theorem C05_sample_matches_itk3 :
   dp_sample3 floorK nearK m p ac (vtab 3 tn) (vtab 3 ts) (vtab 3 tc) (tab 3 3 td) (vtab 3 ss) (vtab 3 sc) (tab 3 3 sd) img J
   = itk_resample3 floorK m dflt (vtab 3 tn) (vtab 3 ts) (vtab 3 tc) (tab 3 3 td) (vtab 3 ss) (vtab 3 sc) (tab 3 3 sd) img J.
 Proof. exact (sample_matches_itk3 K Kf Kc floorK nearK). Qed.
+
+(* 3b. border padding: with padding = border the linear sampler agrees with ITK on ITK's WHOLE buffer [-1/2, n-1/2)^D
+       (buf_ok), i.e. also in the outer half-voxel band around the source sample centres, which target samples reach
+       for align_corners = False.  (The default zeros padding blends toward zero there -- torch's documented behaviour --
+       whereas ITK clamps; theorem 3 therefore assumes [0, n-1]^D for arbitrary padding.)  No rectangularity or
+       field-of-view hypothesis is needed. *)
+Theorem C05_sample_matches_itk_border2 :
+  forall (ac : bool) (dflt : K)
+         (tn ts tc : nat -> K) (td : nat -> nat -> K) (ss sc : nat -> K) (sd : nat -> nat -> K)
+         (img : list (list K)) (J : list K),
+  wf 2 tn ts td -> wf 2 (zsz (sz2 img)) ss sd -> length J = 2%nat ->
+  buf_ok floorK (isizes2 img)
+    (itk_cindex 2 (vtab 2 tn) (vtab 2 ts) (vtab 2 tc) (tab 2 2 td) (zvec (isizes2 img)) (vtab 2 ss) (vtab 2 sc) (tab 2 2 sd) J) ->
+  dp_sample2 floorK nearK Linear (PadMode PBorder) ac (vtab 2 tn) (vtab 2 ts) (vtab 2 tc) (tab 2 2 td) (vtab 2 ss) (vtab 2 sc) (tab 2 2 sd) img J
+  = itk_resample2 floorK Linear dflt (vtab 2 tn) (vtab 2 ts) (vtab 2 tc) (tab 2 2 td) (vtab 2 ss) (vtab 2 sc) (tab 2 2 sd) img J.
+Proof. exact (sample_matches_itk_border2 K Kf Kc floorK nearK). Qed.
+
+Theorem C05_sample_matches_itk_border3 :
+  forall (ac : bool) (dflt : K)
+         (tn ts tc : nat -> K) (td : nat -> nat -> K) (ss sc : nat -> K) (sd : nat -> nat -> K)
+         (img : list (list (list K))) (J : list K),
+  wf 3 tn ts td -> wf 3 (zsz (sz3 img)) ss sd -> length J = 3%nat ->
+  buf_ok floorK (isizes3 img)
+    (itk_cindex 3 (vtab 3 tn) (vtab 3 ts) (vtab 3 tc) (tab 3 3 td) (zvec (isizes3 img)) (vtab 3 ss) (vtab 3 sc) (tab 3 3 sd) J) ->
+  dp_sample3 floorK nearK Linear (PadMode PBorder) ac (vtab 3 tn) (vtab 3 ts) (vtab 3 tc) (tab 3 3 td) (vtab 3 ss) (vtab 3 sc) (tab 3 3 sd) img J
+  = itk_resample3 floorK Linear dflt (vtab 3 tn) (vtab 3 ts) (vtab 3 tc) (tab 3 3 td) (vtab 3 ss) (vtab 3 sc) (tab 3 3 sd) img J.
+Proof. exact (sample_matches_itk_border3 K Kf Kc floorK nearK). Qed.
 
 Theorem C05_module_matches_itk2 :
   forall (m : smode) (p : padarg) (A : axes) (ac : bool) (dflt : K)
@@ -232,6 +259,8 @@ Print Assumptions C05_index_matches_itk.
 Print Assumptions C05_module_index_matches_itk.
 Print Assumptions C05_sample_matches_itk2.
 Print Assumptions C05_sample_matches_itk3.
+Print Assumptions C05_sample_matches_itk_border2.
+Print Assumptions C05_sample_matches_itk_border3.
 Print Assumptions C05_module_matches_itk3.
 Print Assumptions C05_sample_self_id3.
 Print Assumptions C05_const_padding_ok3.
@@ -297,6 +326,69 @@ Theorem C05_sample_self_id_Qc :
        [of_Z jx; of_Z jy; of_Z jz] = val3 img jz jy jx).
 Proof. exact (conj sample_self_id2_Qc sample_self_id3_Qc). Qed.
 
+(* border padding over Qc: bufQ = every component of ITK's source index within [-1/2, n-1/2) *)
+Theorem C05_sample_matches_itk_border2_Qc :
+  forall (ac : bool) (dflt : QcF)
+         (tn ts tc : nat -> QcF) (td : nat -> nat -> QcF) (ss sc : nat -> QcF) (sd : nat -> nat -> QcF)
+         (img : list (list QcF)) (J : list QcF),
+  wf 2 tn ts td -> wf 2 (zsz (sz2 img)) ss sd -> length J = 2%nat ->
+  bufQ (isizes2 img)
+    (itk_cindex 2 (vtab 2 tn) (vtab 2 ts) (vtab 2 tc) (tab 2 2 td) (zvec (isizes2 img)) (vtab 2 ss) (vtab 2 sc) (tab 2 2 sd) J) ->
+  qdp_sample2 Linear (PadMode PBorder) ac (vtab 2 tn) (vtab 2 ts) (vtab 2 tc) (tab 2 2 td) (vtab 2 ss) (vtab 2 sc) (tab 2 2 sd) img J
+  = qitk_resample2 Linear dflt (vtab 2 tn) (vtab 2 ts) (vtab 2 tc) (tab 2 2 td) (vtab 2 ss) (vtab 2 sc) (tab 2 2 sd) img J.
+Proof. exact sample_matches_itk_border2_Qc. Qed.
+
+Theorem C05_sample_matches_itk_border3_Qc :
+  forall (ac : bool) (dflt : QcF)
+         (tn ts tc : nat -> QcF) (td : nat -> nat -> QcF) (ss sc : nat -> QcF) (sd : nat -> nat -> QcF)
+         (img : list (list (list QcF))) (J : list QcF),
+  wf 3 tn ts td -> wf 3 (zsz (sz3 img)) ss sd -> length J = 3%nat ->
+  bufQ (isizes3 img)
+    (itk_cindex 3 (vtab 3 tn) (vtab 3 ts) (vtab 3 tc) (tab 3 3 td) (zvec (isizes3 img)) (vtab 3 ss) (vtab 3 sc) (tab 3 3 sd) J) ->
+  qdp_sample3 Linear (PadMode PBorder) ac (vtab 3 tn) (vtab 3 ts) (vtab 3 tc) (tab 3 3 td) (vtab 3 ss) (vtab 3 sc) (tab 3 3 sd) img J
+  = qitk_resample3 Linear dflt (vtab 3 tn) (vtab 3 ts) (vtab 3 tc) (tab 3 3 td) (vtab 3 ss) (vtab 3 sc) (tab 3 3 sd) img J.
+Proof. exact sample_matches_itk_border3_Qc. Qed.
+
+(* non-vacuity of the border theorems: 3x2 image, target = source grid refined by 2 with align_corners = False; target
+   sample (0,0) has the ITK index (-1/4, -1/4): in the outer band (bufQ holds, okQ's field of view does not); border
+   padding and ITK both return the corner value 1, zeros padding returns 9/16 *)
+Example C05_border_nonvacuous :
+  let img : list (list QcF) := [[q 1 1; q 2 1; q 4 1]; [q 3 1; q 7 1; q 5 1]] in
+  let ss : nat -> QcF := fun i => nth i [q 2 1; q 1 1] (q 1 1) in
+  let sc : nat -> QcF := fun i => nth i [q 0 1; q 0 1] (q 0 1) in
+  let sd : nat -> nat -> QcF := fun i j => nth j (nth i [[q 1 1; q 0 1]; [q 0 1; q 1 1]] []) (q 0 1) in
+  let tn : nat -> QcF := fun i => nth i [q 6 1; q 4 1] (q 1 1) in
+  let ts : nat -> QcF := fun i => nth i [q 1 1; q 1 2] (q 1 1) in
+  let J : list QcF := [q 0 1; q 0 1] in
+  wf 2 tn ts sd /\ wf 2 (zsz (sz2 img)) ss sd /\
+  bufQ (isizes2 img)
+    (itk_cindex 2 (vtab 2 tn) (vtab 2 ts) (vtab 2 sc) (tab 2 2 sd) (zvec (isizes2 img)) (vtab 2 ss) (vtab 2 sc) (tab 2 2 sd) J) /\
+  veqb (itk_cindex (K:=QcF) 2 (vtab 2 tn) (vtab 2 ts) (vtab 2 sc) (tab 2 2 sd) (zvec (isizes2 img)) (vtab 2 ss) (vtab 2 sc) (tab 2 2 sd) J)
+       [q (-1) 4; q (-1) 4] = true /\
+  qeqb (qdp_sample2 Linear (PadMode PBorder) false (vtab 2 tn) (vtab 2 ts) (vtab 2 sc) (tab 2 2 sd) (vtab 2 ss) (vtab 2 sc) (tab 2 2 sd) img J)
+       (q 1 1) = true /\
+  qeqb (qitk_resample2 Linear (q 0 1) (vtab 2 tn) (vtab 2 ts) (vtab 2 sc) (tab 2 2 sd) (vtab 2 ss) (vtab 2 sc) (tab 2 2 sd) img J)
+       (q 1 1) = true /\
+  qeqb (qdp_sample2 Linear (PadMode PZeros) false (vtab 2 tn) (vtab 2 ts) (vtab 2 sc) (tab 2 2 sd) (vtab 2 ss) (vtab 2 sc) (tab 2 2 sd) img J)
+       (q 9 16) = true.
+Proof.
+  intros img ss sc sd tn ts J.
+  assert (W1 : wf (K:=QcF) 2 tn ts sd).
+  { repeat split; try (apply meqb_eq; vm_compute; reflexivity);
+      intros [|[|i]] Hi; try lia; apply qeqb_neq; vm_compute; reflexivity. }
+  assert (W2 : wf (K:=QcF) 2 (zsz (sz2 img)) ss sd).
+  { repeat split; try (apply meqb_eq; vm_compute; reflexivity);
+      intros [|[|i]] Hi; try lia; apply qeqb_neq; vm_compute; reflexivity. }
+  split; [exact W1|]. split; [exact W2|].
+  split.
+  - assert (E : itk_cindex (K:=QcF) 2 (vtab 2 tn) (vtab 2 ts) (vtab 2 sc) (tab 2 2 sd) (zvec (isizes2 img)) (vtab 2 ss) (vtab 2 sc) (tab 2 2 sd) J
+                = [q (-1) 4; q (-1) 4]) by (apply veqb_eq; vm_compute; reflexivity).
+    rewrite E. repeat constructor; vm_compute; discriminate.
+  - repeat split; vm_compute; reflexivity.
+Qed.
+
+Print Assumptions C05_sample_matches_itk_border2_Qc.
+Print Assumptions C05_sample_matches_itk_border3_Qc.
 Print Assumptions C05_sample_matches_itk2_Qc.
 Print Assumptions C05_sample_matches_itk3_Qc.
 Print Assumptions C05_module_matches_itk3_Qc.
